@@ -36,8 +36,8 @@ def all_masks(n):
     return list(itertools.product((True, False), repeat=n))
 
 
-def two_run_masks(n):
-    """Every mask over n frames with at most two runs of present frames."""
+def two_run_masks(n, maxruns=2):
+    """Every mask over n frames with at most `maxruns` (1 or 2) runs of present frames."""
     out = {tuple([False] * n)}
     for a in range(n):
         for b in range(a + 1, n + 1):
@@ -45,6 +45,8 @@ def two_run_masks(n):
             for i in range(a, b):
                 m[i] = True
             out.add(tuple(m))
+            if maxruns < 2:
+                continue
             for c in range(b + 1, n):
                 for d in range(c + 1, n + 1):
                     m2 = list(m)
